@@ -335,9 +335,14 @@ fn get_node_tag<'i>(
 }
 
 fn consume_expr<'i>(
-    pairs: Peekable<Pairs<'i, Rule>>,
+    mut pairs: Peekable<Pairs<'i, Rule>>,
     pratt: &PrattParser<Rule>,
 ) -> Result<ParserNode<'i>, Vec<Error<Rule>>> {
+    // Every `expression` may start with a choice operator (`( | a | b )`), not only a rule's.
+    if pairs.peek().map(|pair| pair.as_rule()) == Some(Rule::choice_operator) {
+        pairs.next().unwrap();
+    }
+
     fn unaries<'i>(
         mut pairs: Peekable<Pairs<'i, Rule>>,
         pratt: &PrattParser<Rule>,
